@@ -107,7 +107,7 @@ def run(ctx):
     rng = ctx.rng
     thorough = ctx.tier == "thorough"
     t0 = time.time()
-    budget = 430.0 if thorough else 75.0
+    budget = 430.0 if thorough else 42.0
 
     # ---- (b) shape audit ---------------------------------------------------------------
     src = os.path.join(vcommon.SRC, "waitress")
